@@ -53,6 +53,8 @@ type GRun struct {
 	CA        GCA                  `json:"ca"`
 	StubPanic string               `json:"stub_panic,omitempty"` // Name|Generate|CSRs|AddCertsToAgent of the selected stub
 	StubCSRs  int                  `json:"stub_csrs"`            // CSRs per agent key of stub handlers
+	StubKeys  int                  `json:"stub_keys,omitempty"`  // agent keys returned by a stub handler (0 means 1)
+	SSHVer    string               `json:"ssh_ver,omitempty"`    // client-declared SSH version ("" means 8.1)
 	AdvanceS  int64                `json:"advance_s"`
 	// further client claims carried by the command text: none of them may influence the signing request
 	Touch2SSH   bool   `json:"touch2ssh,omitempty"`
@@ -109,12 +111,12 @@ func genUsers(r *sim.Rng, n int, odd bool) []GUser {
 		if !odd {
 			name = []string{"alice", "bob", "carol.smith", "root"}[i%4]
 		}
-		dirs := []string{"pub", "pub", "pub", "bare", "both_same", "both_diff", "none", "unparsable", "empty", "dir"}
+		dirs := []string{"pub", "pub", "pub", "pub_commented", "bare", "both_same", "both_diff", "none", "unparsable", "empty", "dir"}
 		us = append(us, GUser{Name: name, KeyKind: pick(r, []string{"ed25519", "ed25519", "ecdsa256", "rsa2048"}), Dir: pick(r, dirs)})
 	}
 	// the first user is usually fully registered so that honest runs can succeed
 	if r.Bool(0.8) {
-		us[0].Dir = pick(r, []string{"pub", "bare", "both_same", "both_diff"})
+		us[0].Dir = pick(r, []string{"pub", "pub_commented", "bare", "both_same", "both_diff"})
 	}
 	return us
 }
@@ -199,6 +201,10 @@ func genRun(r *sim.Rng, p *GPlan, faulty bool, odd bool) GRun {
 			run.Handlers = append(run.Handlers, pick(r, []string{"regular", "stub:ok", "stub:fail", "stub:fail", "stub:panic"}))
 		}
 		run.StubCSRs = r.Range(0, 3)
+		run.StubKeys = r.Range(1, 2)
+	}
+	if r.Bool(0.2) {
+		run.SSHVer = pick(r, []string{"7.4", "9.9", "6.6", "10.0", "65535.65535"})
 	}
 	if r.Bool(0.02) {
 		run.Handlers = []string{} // no handler configured at all: nothing may happen, all authentications failed
@@ -208,7 +214,7 @@ func genRun(r *sim.Rng, p *GPlan, faulty bool, odd bool) GRun {
 	}
 	run.CA.NCerts = pick(r, []int{1, 1, 1, 2, 3, 0})
 	for i := 0; i < r.Range(0, 3); i++ {
-		run.CA.Comments = append(run.CA.Comments, pick(r, []string{"", "touch", "c2", "hello world"}))
+		run.CA.Comments = append(run.CA.Comments, pick(r, []string{"", "touch", "c2", "hello world", "paranoids.regular", "x-paranoids.regular-cert"}))
 	}
 	if faulty {
 		switch r.Intn(5) {
